@@ -9,6 +9,12 @@ Spec == Init /\ [][Next]_n
 ToSet(s) == {s[i] : i \in 1..Len(s)}
 Sc(r) == [env |-> ToSet(r.sc.env), secretfile |-> r.sc.secretfile, file |-> ToSet(r.sc.file)]
 Bad(r) == {f \in Fields : r.got[f] # Resolve(Sc(r), f)}
-Judge == n >= 1 => (Bad(Recs[n]) = {} \/ PrintT(<<"FAIL", ToJson([line |-> n, clauses |-> {"CL_TopmostLayerWins(" \o f \o ")" : f \in Bad(Recs[n])}])>>))
+\* records of kind "env": one field set from the environment only; what was resolved is compared as text
+IsEnvRec(r) == "kind" \in DOMAIN r /\ r.kind = "env"
+EnvBad(r) == IF r.field \in EnvFields /\ r.got = EnvResolved(r.field, r.given) THEN {}
+             ELSE {IF r.field \in TextFields THEN "CL_EnvTextVerbatim(" \o r.field \o ")" ELSE "CL_EnvReaches(" \o r.field \o ")"}
+Judge == n >= 1 => LET r == Recs[n]
+                       bad == IF IsEnvRec(r) THEN EnvBad(r) ELSE {"CL_TopmostLayerWins(" \o f \o ")" : f \in Bad(r)} IN
+                   (bad = {} \/ PrintT(<<"FAIL", ToJson([line |-> n, clauses |-> bad])>>))
 AllConsumed == TLCGet("stats").diameter = Len(Recs) + 1 \/ PrintT(<<"NOTCONSUMED", ToJson([d |-> TLCGet("stats").diameter])>>)
 =============================================================================
